@@ -131,6 +131,20 @@ impl Store {
     }
 }
 
+thread_local! {
+    /// `apply-lease-time` of the scenario's policy ("" = not configured): the reply must still carry the length of the
+    /// lease that was recorded, within the bounds
+    static PLT: std::cell::RefCell<String> = const { std::cell::RefCell::new(String::new()) };
+}
+pub fn set_policy_lease_time(v: &Value) {
+    let s = match v {
+        Value::Null => String::new(),
+        Value::String(s) => s.clone(),
+        x => x.to_string(),
+    };
+    PLT.with(|p| *p.borrow_mut() = s);
+}
+
 fn pool_set(p: &Value) -> pool::PoolAddresses {
     p.as_array().unwrap().iter().map(|x| addr(x.as_i64().unwrap())).collect()
 }
@@ -140,6 +154,11 @@ fn pool_set(p: &Value) -> pool::PoolAddresses {
 /// hardware addresses nobody uses.
 pub fn yaml_for_pool(p: &[i64]) -> String {
     let mut s = String::from("dhcp-policies:\n  - match-subnet: 10.9.0.0/24\n");
+    PLT.with(|p| {
+        if !p.borrow().is_empty() {
+            s.push_str(&format!("    apply-lease-time: {}\n", p.borrow()));
+        }
+    });
     if p.is_empty() {
         s.push_str("    apply-domain-name: example.org\n");
         return s;
@@ -174,7 +193,8 @@ impl PktCtx {
         key.sort();
         key.dedup();
         // the cache is keyed by the real addresses (the index map differs between scenarios)
-        let ckey: Vec<i64> = key.iter().map(|x| u32::from(addr(*x)) as i64).collect();
+        let mut ckey: Vec<i64> = key.iter().map(|x| u32::from(addr(*x)) as i64).collect();
+        ckey.push(PLT.with(|p| crate::dnswalk::digest(p.borrow().as_bytes())));
         if let Some(c) = self.cfgs.get(&ckey) {
             return c.clone();
         }
@@ -365,6 +385,7 @@ pub fn run_scenario(sc: &Value, n: usize, dbdir: &str, epoch: i64, ctx: &mut Pkt
         std::process::exit(2)
     });
     set_amap(sc["amap"].as_array().map(|a| a.iter().map(|x| x.as_u64().unwrap() as u32).collect()).unwrap_or_default());
+    set_policy_lease_time(&sc["plt"]);
     let mut st = Store { pool: Some(pool), path: path.clone(), epoch, shift: 0, ids: HashMap::new() };
     for c in 1..=64 {
         st.ids.insert(client_identity(c, &lvl), c);
